@@ -66,6 +66,12 @@ def items(tier, seed):
         for seq in itertools.product(pool, repeat=L):
             if seq[-1] not in ("symA", "symB"):
                 continue
+            # the compiled backends cannot ingest tensors of the symbolic backend (object dtype); objects built under
+            # a symbolic backend would fail there for a reason that is an artefact of the stand-in, so jax / pytorch /
+            # tensorflow may only appear before the first symbolic backend of a history
+            first_sym = min(i for i, b in enumerate(seq) if b in ("symA", "symB"))
+            if any(b in ("jax", "pytorch", "tensorflow") for b in seq[first_sym:]):
+                continue
             if any(a == b for a, b in zip(seq, seq[1:])) and tier == "quick" and L == 3:
                 continue
             for create_at in range(L):
